@@ -237,6 +237,8 @@ class Run:
                 raise Unsupported('deepcopy of ' + type(o).__name__)
             self.st.heap[r.loc] = no
             return r
+        if isinstance(v, EntryRef):
+            return self.eng.lib.entry_to_obj(self, v)
         if isinstance(v, TupleV):
             return TupleV([self.deepcopy(x, memo) for x in v.items])
         if isinstance(v, RecordV):
